@@ -3,7 +3,8 @@
 # warms the Go build cache. Offline.
 cd "$(dirname "$0")" || exit 2
 export GOFLAGS=-mod=mod GOPROXY=off GOSUMDB=off GOTOOLCHAIN=local
-mkdir -p bin evidence replays .work
+mkdir -p bin evidence replays .work/gocache
+export GOCACHE="${VERIF_GOCACHE:-$PWD/.work/gocache}"
 rc=0
 for id in $(jq -r '.checks[].property_id' MANIFEST.json | tr 'A-Z' 'a-z') genworker; do
   if [ -d "cmd/$id" ]; then
